@@ -42,7 +42,7 @@ PROBES = [
     "distribute_on_engine_labels", "stale_stub_at_compute", "stale_layer_at_compute",
     "stale_pos_at_compute", "getLayers_checked", "abort_as_SimAbort", "abort_as_MemoryError",
     "abort_as_KeyboardInterrupt", "recompute_after_other_engine_used_same_objects",
-    "fits_budget_exactly",
+    "fits_budget_exactly", "mixed_fresh_and_used_labels",
 ]
 
 RULE = {
@@ -244,7 +244,7 @@ def gen_plan(rng, tier):
             ops.append(["compute", e])
         elif r < 0.5:
             s = rng.randrange(nsets)
-            mode = rng.choice(["fresh", "same", "permute", "permute", "handover"])
+            mode = rng.choice(["fresh", "same", "permute", "permute", "handover", "mixed"])
             ops.append(["set_labels", e, s, mode, rng.randrange(1 << 30)])
             engine_set[e] = s
         elif r < 0.6:
@@ -284,7 +284,10 @@ def gen_plan(rng, tier):
     for e in sorted(have_engine):
         if engine_set.get(e) is not None and rng.random() < 0.7:
             ops.append(["compute", e])
-    return {"sim": NAME, "sets": sets, "ops": ops, "enabled": enabled}
+    plan = {"sim": NAME, "sets": sets, "ops": ops, "enabled": enabled}
+    if tier == "thorough" and rng.random() < 0.004:
+        plan["cold_crosscheck"] = True
+    return plan
 
 
 def _bounds_ok(opts):
@@ -600,8 +603,15 @@ def _run(plan):
                     mode_eff = "fresh"
                 else:
                     mode_eff = mode
+                if mode_eff == "mixed":
+                    # some label objects are reused (with whatever earlier layouts
+                    # left on them), the others are fresh objects for the same labels
+                    r = random.Random(seed)
+                    fresh = fresh_nodes(s)
+                    objs[s] = [old if r.random() < 0.5 else new for old, new in zip(objs[s], fresh)]
+                    bump("probe:mixed_fresh_and_used_labels")
                 lst = list(objs[s])
-                if mode_eff == "permute":
+                if mode_eff in ("permute", "mixed") and (mode_eff == "permute" or seed % 2):
                     random.Random(seed).shuffle(lst)
                     eng["permuted"] = True
                 else:
@@ -802,7 +812,8 @@ def _reference(job):
     from labella.force import Force
     from labella.node import Node
 
-    seams.silence_stdio()
+    if not job.get("keep_stdout"):
+        seams.silence_stdio()
     labels = sorted(job["labels"], key=lambda t: (t[0], t[1]))
     nodes = [Node(p, w, data={"i": i}) for i, (p, w) in enumerate(labels)]
     user_opts = {k: v for k, v in job["opts"].items()}
@@ -828,6 +839,13 @@ def execute(plan):
         if key not in cache:
             cache[key] = run_isolated(_reference, {"opts": cp["opts"], "labels": cp["labels"]})
             counters["references_computed"] = counters.get("references_computed", 0) + 1
+            if plan.get("cold_crosscheck") and not counters.get("cold_reference_crosschecks"):
+                from ..driver import cold_reference
+
+                cold = cold_reference(NAME, {"opts": cp["opts"], "labels": cp["labels"]})
+                counters["cold_reference_crosschecks"] = 1
+                if cold != cache[key]:
+                    raise HarnessError("fork-from-pristine reference differs from a cold interpreter")
         want = cache[key]
         judged += 1
         if cp["history"]:
